@@ -1146,6 +1146,20 @@ def m_sicd_numrows(p, r):
     return replace_in(p['buf'], do, do + dl, b'<NumRows>%d</NumRows>' % n, b'<NumRows>%d</NumRows>' % new)
 
 
+def _sicd_ipp_sets(p):
+    tl = getattr(p['meta'], 'Timeline', None)
+    return [] if tl is None or tl.IPP is None else list(tl.IPP)
+
+
+def m_sicd_ipp_start(p, r):
+    """a rule the schema cannot express, broken INSIDE an array entry: IPPStart of the first Timeline/IPP/Set no longer is the value of that
+    set's IPPPoly at TStart (the validator judges array entries through SerializableArray.is_valid)"""
+    so, sl, do, dl = des_of(p['buf'], b'SICD')
+    n = int(_sicd_ipp_sets(p)[0].IPPStart)
+    new = n + 7 if len(str(n + 7)) == len(str(n)) else n - 7
+    return replace_in(p['buf'], do, do + dl, b'<IPPStart>%d</IPPStart>' % n, b'<IPPStart>%d</IPPStart>' % new)
+
+
 def m_sicd_pixel_type(p, r):
     so, sl, do, dl = des_of(p['buf'], b'SICD')
     old = p['meta'].ImageData.PixelType.encode()
@@ -1215,6 +1229,8 @@ NITF_MUTATIONS = [
     dict(name='sicd_isubcat_both_bands', kind='sicd', rule='image segment bands have ISUBCAT (I, Q) / (M, P) (both codes altered)',
          lean='mutation_both_bands_falsify_sicdSegOk', apply=m_isubcat(True)),
     dict(name='sicd_numrows_vs_pixels', kind='sicd', rule='ImageData.NumRows agrees with the pixel data (image segment rows)', apply=m_sicd_numrows),
+    dict(name='sicd_ipp_set_start', kind='sicd', rule='Timeline/IPP/Set: IPPStart is the value of the set\'s IPPPoly at TStart (a rule inside an array entry)',
+         apply=m_sicd_ipp_start, applies=lambda p: len(_sicd_ipp_sets(p)) > 0 and abs(int(_sicd_ipp_sets(p)[0].IPPStart)) < 10**6),
     dict(name='sicd_xml_required_element_removed', kind='sicd', rule='stand-alone XML validates against the schema', xml_file=True, apply=m_xml_file('sicd', 'CollectionInfo/CoreName')),
     dict(name='sidd_desshtn_mismatch', kind='sidd', rule='DES.DESSHTN agrees with the XML namespace', lean='mutation_desshtn_falsifies_desRule',
          apply=m_des_field(b'SIDD', b'urn:SIDD:2.0.0', b'urn:SIDD:1.0.0', 'sub')),
